@@ -308,6 +308,12 @@ func (w *caseWriter) enc(s *tlh.Struct, pv reflect.Value, kind string) (encRes, 
 		snap1 = append([]byte{}, r1.data...)
 	}
 	r2 := marshal(pv.Interface())
+	// the caller's memory behind the byte strings of the value (their spare capacity) must be as it was
+	if ok, where := tlh.SpareIntact(pv); !ok {
+		w.stat["G:argument-memory-written"]++
+		w.out.Line("G", w.id(), g, vc.HexS(where))
+	}
+	w.stat["G:checks"]++
 	det := "1"
 	if r1.class != r2.class || !bytes.Equal(r1.data, r2.data) || !bytes.Equal(r1.data, snap1) {
 		det = "0"
